@@ -7,7 +7,9 @@ import (
 
 	"github.com/indexsupply/shovel/dig"
 	"github.com/indexsupply/shovel/jrpc2"
+	"github.com/indexsupply/shovel/shovel"
 	"github.com/indexsupply/shovel/shovel/config"
+	"github.com/jackc/pgx/v5/pgxpool"
 	"github.com/indexsupply/shovel/wpg"
 
 	"verifharness/core"
@@ -267,6 +269,34 @@ func runC05(e *core.Env) error {
 			}
 			e.Add(core.Case{Impl: verdict, Spec: "ok", Key: fmt.Sprintf("c05-gate %d %d", h, i), Nontrivial: true, Tags: []string{"dep-step", fmt.Sprintf("missing=%v", missing), "out:" + strings.SplitN(out, " ", 2)[0]},
 				Detail: map[string]any{"task": t.id, "deps": t.deps, "history": strings.Split(strings.Join(w.ops, "\n"), "\n")}})
+		}
+		if h == 0 {
+			// an integration with a filter reference stored through the dashboard is loaded without
+			// ValidateFix: no Dependencies are computed for it (recorded finding)
+			pg2 := fakepg.New()
+			url2, _ := pg2.Start()
+			pool2, perr := pgxpool.New(w.ctx, url2)
+			if perr == nil {
+				g := gIg{name: "igb", enabled: true, srcs: []string{"src1"}, refs: [][3]uint64{{0, 1, 0}}}
+				cj := g.json()
+				cj = strings.Replace(cj, `"name":"block_time"`, `"name":"block_time","filter_op":"contains","filter_ref":{"integration":"iga","column":"ev_to"}`, 1)
+				pg2.InsertRow("shovel.integrations", map[string]fakepg.Value{"name": "igb", "conf": fakepg.JSON(cj)})
+				conf := config.Root{Sources: []config.Source{{Name: "src1", ChainID: 7, URLs: []string{"http://127.0.0.1:1"}, PollDuration: time.Second}},
+					Integrations: []config.Integration{transferIG("iga", "ta", []string{"block_time"}, func(ci *config.Integration) { ci.Sources = []config.Source{{Name: "src1", Start: 1}} })}}
+				config.ValidateFix(&conf)
+				ts, lerr := shovel.VerifLoadTasks(w.ctx, pool2, conf)
+				verdict := "ok"
+				if lerr == nil {
+					for _, t := range ts {
+						if t.IG == "igb" && len(t.Dependencies) == 0 {
+							verdict = "the dashboard-stored integration igb references iga but is loaded with no dependencies"
+						}
+					}
+				}
+				e.Add(core.Case{Impl: verdict, Spec: "ok", Class: "C05.dashboard_no_dependencies", Key: "c05-dashboard", Nontrivial: true, Tags: []string{"dashboard-dependencies"}})
+				go pool2.Close()
+			}
+			pg2.Close()
 		}
 		op, impl := w.caseOp()
 		e.Add(core.Case{Op: op, Impl: impl, Nontrivial: depSteps > 0, Tags: []string{fmt.Sprintf("two-refs=%v", two), fmt.Sprintf("on-input=%v", onInput), fmt.Sprintf("chain=%v", chainC)}, Key: fmt.Sprintf("c05 %d %d", h, e.Seed)})
